@@ -239,7 +239,11 @@ class _ManifoldDynamicsService(_DynamicsServiceBase):
                 self.orbit.initial_state,
                 self.period,
                 steps=steps,
-                forward=self.forward,
+                # The Floquet directions are eigenvectors of the monodromy matrix of
+                # the forward flow (|lambda| < 1 stable, |lambda| > 1 unstable) and are
+                # transported along the orbit by the forward STM, for both branches;
+                # only the manifold trajectories themselves run backward (stable).
+                forward=1,
             )
         
         return self.get_or_create(cache_key, _factory)
